@@ -513,7 +513,8 @@ def ctor_cases(ctx):
     for m in sorted(set([1, 2, 3, n - 1, n - 2] + [rng.randint(1, n - 1) for _ in range(ctx.scale(8, 120))])):
         l, r = wf_pair(m)
         cases.append(("ctor-shorter", rng.random() < 0.3, l, r))
-    cases.append(("ctor-shorter", False, [-3.0], [-2.0]))       # one value below the probability grid: see the report
+    cases.append(("ctor-shorter", False, [-3.0], [-2.0]))       # one value: outside the single level the end value is used
+    cases.append(("ctor-shorter", False, [5.0], [7.0]))
     # unequal lengths, broadcasting, empty
     for _ in range(ctx.scale(6, 60)):
         m1, m2 = rng.choice([(3, 5), (n, n + 1), (1, n), (n, 1), (1, 7), (n - 1, n), (2 * n, n)])
@@ -746,6 +747,28 @@ def run(ctx: core.Check):
                 "impl": pbx.js(impl)}
         if obj is not None:
             report_problems(ctx, wf_problems(obj), {"node": "ctor", "stream": stream, "lists": lists}, case, f"Staircase(...) [{stream}]")
+        # what the constructor owes on input that IS a p-box (independent of the model)
+        clean = not any(math.isnan(x) for x in l + r)
+        want = None
+        if stream == "ctor-exact":
+            want = (l, r)
+        elif stream == "ctor-swapped":
+            want = (r, l)
+        if want is not None:
+            if impl[0] != "ok" or impl[1] != want[0] or impl[2] != want[1]:
+                ctx.fail({"node": "ctor", "stream": stream, "lists": lists, "check": "valid-input-not-returned"}, case,
+                         f"Staircase on well-formed bounds ({stream}) did not return them: {pbx.js(impl)}")
+        if stream in ("ctor-longer", "ctor-shorter") and clean:
+            if impl[0] != "ok":
+                ctx.fail({"node": "ctor", "stream": stream, "lists": lists, "check": "length-normalisation-raises"}, case,
+                         f"Staircase on well-formed bounds of length {len(l)} raised {impl[1]}")
+            else:
+                for side, src, got in (("left", l, impl[1]), ("right", r, impl[2])):
+                    okk = len(got) == n and got[0] == src[0] and got[-1] == src[-1] and set(got) <= set(src)
+                    if not okk:
+                        ctx.fail({"node": "ctor", "stream": stream, "lists": lists, "check": "length-normalisation-values"}, case,
+                                 f"{side} bound of length {len(src)} normalised to {len(got)} values; ends {got[:1]}..{got[-1:]} vs {src[:1]}..{src[-1:]}, "
+                                 f"foreign values: {sorted(set(got) - set(src))[:3]}")
         ctx.sample({"stream": stream, "lists": lists, "len": [len(l), len(r)], "impl": pbx.js(impl)}, cap=4)
     for m, rep in zip(lens, replies[len(cc):]):
         ctx.count(("bsc", m), True, "bound-steps")
@@ -864,7 +887,7 @@ def run(ctx: core.Check):
     ctx.extra_cov["moment_stream"] = [{k: r.get(k) for k in ("name", "method", "support", "mean", "var", "secs", "err")} for r in mres][:40]
 
 
-LEAN_MODULES = ["Pun.Props.C04"]
+LEAN_MODULES = ["Pun.Lemmas.WellFormed", "Pun.Props.C04"]
 
 
 def _leaf_ids(s, acc):
